@@ -15,7 +15,9 @@ U == << El("i1a", "int", 1, "n1", NoKey), El("i1b", "int", 1, "n1", NoKey), El("
         El("fm15", "int", -2, "nm1h", NoKey),
         \* zero held as an unsigned machine integer (u64 / u128): next to the negative float and the negative integer;
         \* the two bools: ordered among themselves, never with a number
-        El("z0", "int", 0, "n0", NoKey), El("zU", "int", 0, "n0", NoKey), El("bt", "bool", 1, "bt", NoKey), El("bf", "bool", 0, "bf", NoKey) >>
+        El("z0", "int", 0, "n0", NoKey), El("zU", "int", 0, "n0", NoKey), El("bt", "bool", 1, "bt", NoKey), El("bf", "bool", 0, "bf", NoKey),
+        \* the float 2^53 and the integer 2^53 + 1 (which rounds to it): different data, the integer is the larger
+        El("f53", "int", 7, "n2p53", NoKey), El("i53", "int", 8, "n2p53p1", NoKey) >>
 GK == << <<"int", 1>>, <<"int", 2>>, <<"str", 1>> >>          \* the group keys that can occur in U
 Obs == IF IOEnv.OBS = "" THEN <<>> ELSE ndJsonDeserialize(IOEnv.OBS)
 VARIABLES mode, xs, o, done
